@@ -8,6 +8,7 @@ from .. import astutil as A
 from ..cfg import CFG
 from ..core import AnalysisError, ClassInfo, Collector, Repo
 from ..dataflow import ReachingDefs, Def
+from ..normalize import Normalizer, make_resolver, MARKER
 
 INDEX_ATTRS = ("rdeps", "rtasks", "deptasks", "tartasks")
 DEF_ATTRS = ("tasks",) + INDEX_ATTRS
@@ -29,6 +30,9 @@ class FnCtx:
         except NotImplementedError as e:
             raise AnalysisError(f"unsupported statement in {self.qual}: {e}")
         self._rd = None
+        self.orig_fn = fn
+        self.inlined: List[str] = []
+        self.opaque: List[str] = []
 
     @property
     def qual(self):
@@ -74,13 +78,31 @@ class FnCtx:
         return out
 
 
-def fnctx(repo: Repo, cls: Optional[str], name: str, module: Optional[str] = None) -> FnCtx:
+def fnctx(repo: Repo, cls: Optional[str], name: str, module: Optional[str] = None, *, inline: bool = False,
+          keep: Iterable[str] = (), also: Iterable[str] = (), lower_comps: bool = False, depth: int = 3) -> FnCtx:
+    """CFG context of a function *after normalisation* (xsa.normalize): private helpers inlined, conditional
+    expressions lowered -- so that a rule sees what the function does, however it is split into helpers.
+    `keep`: helper names never inlined (the rule names them as anchors); `also`: public names to inline too."""
     if cls:
         c = repo.cls(cls)
         fn = repo.method(cls, name)
-        return FnCtx(c.module, c, fn)
-    m = repo.module(module)
-    return FnCtx(m, None, repo.function(module, name))
+        mod = c.module
+    else:
+        c = None
+        mod = repo.module(module)
+        fn = repo.function(module, name)
+    if not inline:
+        return FnCtx(mod, c, fn)
+    nz = Normalizer(make_resolver(repo, mod, also=set(also)), cls=c, keep=set(keep), depth=depth, lower_comps=lower_comps)
+    try:
+        fn2 = nz.run(fn)
+    except RecursionError:
+        raise AnalysisError(f"normalisation of {name} did not terminate")
+    cx = FnCtx(mod, c, fn2)
+    cx.orig_fn = fn
+    cx.inlined = list(nz.inlined)
+    cx.opaque = list(nz.opaque)
+    return cx
 
 
 def is_self_call(c: ast.Call, meth: Optional[str] = None, selfname="self") -> bool:
@@ -150,3 +172,125 @@ def loop_free_of(fn_body_nodes, kinds=(ast.Break, ast.Continue, ast.Return, ast.
             if isinstance(n, kinds):
                 out.append(n)
     return out
+
+
+# ---------------------------------------------------------------------- symbolic context (xsa.sym)
+
+from .. import sym as S  # noqa: E402
+
+
+class SCtx:
+    """A normalised function with its CFG, symbolic evaluator and event list."""
+
+    def __init__(self, cx: FnCtx):
+        self.cx = cx
+        self.cfg = cx.cfg
+        self.fn = cx.fn
+        self.sym = S.Sym(cx)
+        self.events = S.events(cx, self.sym)
+        self._conds: Dict[int, tuple] = {}
+
+    @property
+    def qual(self):
+        return self.cx.qual
+
+    def loc(self, x) -> str:
+        if isinstance(x, S.Event):
+            x = x.nid
+        return self.cx.loc(x)
+
+    def P(self, i: int):
+        """term of the i-th parameter (self excluded)"""
+        for t in self.sym.params.values():
+            if t[:1] == ("param",) and t[1] == i:
+                return t
+        raise AnalysisError(f"{self.qual}: no parameter #{i}")
+
+    def pnamed(self, name: str):
+        if name not in self.sym.params:
+            raise AnalysisError(f"{self.qual}: no parameter `{name}`")
+        return self.sym.params[name]
+
+    def calls(self, pat=None, pred=None) -> List[tuple]:
+        """(event, bindings) for call events whose term matches `pat` in *every* alternative (or satisfies pred)"""
+        out = []
+        for ev in self.events:
+            if ev.kind != "call":
+                continue
+            if pat is not None:
+                m = S.match(ev.term, pat)
+                if m is None:
+                    continue
+            else:
+                m = {}
+            if pred is not None and not pred(ev):
+                continue
+            out.append((ev, m))
+        return out
+
+    def calls_some(self, pat) -> List[tuple]:
+        """call events for which *some* alternative matches"""
+        out = []
+        for ev in self.events:
+            if ev.kind == "call":
+                m = S.match_some(ev.term, pat)
+                if m is not None:
+                    out.append((ev, m))
+        return out
+
+    def of_kind(self, kind: str) -> List[S.Event]:
+        return [e for e in self.events if e.kind == kind]
+
+    def conds(self, nid: int) -> tuple:
+        """normalised conditions (conjuncts) that hold whenever node nid executes (if/while tests only)"""
+        if nid not in self._conds:
+            out = []
+            for pol, t in self.sym.guards(nid):
+                out.extend(S.conjuncts(S.norm_cond(pol, t)))
+            self._conds[nid] = tuple(out)
+        return self._conds[nid]
+
+    def under(self, nid: int, pat) -> bool:
+        return any(S.match(c, pat) is not None for c in self.conds(nid))
+
+    def branches(self, pat) -> List[int]:
+        """branch pseudo-nodes (T/F) on which a condition matching `pat` is known to hold"""
+        out = []
+        for n in self.cfg.nodes.values():
+            if n.kind in ("T", "F") and n.ast is not None and not isinstance(n.ast, (ast.For, ast.AsyncFor)):
+                t = self.sym.of(n.ast, n.of)
+                c = S.norm_cond(n.kind == "T", t)
+                if any(S.match(x, pat) is not None for x in S.conjuncts(c)):
+                    out.append(n.id)
+        return out
+
+    def nids(self, evs) -> List[int]:
+        return sorted({(e[0] if isinstance(e, tuple) else e).nid for e in evs})
+
+    def show(self, t) -> str:
+        return S.show(t)
+
+
+def sctx(repo: Repo, cls: Optional[str], name: str, module: Optional[str] = None, *, keep: Iterable[str] = (),
+         public: bool = False, also: Iterable[str] = (), lower_comps: bool = False, depth: int = 3) -> SCtx:
+    """Symbolic context of a function after normalisation (helpers inlined except those in `keep`)."""
+    if cls:
+        c = repo.cls(cls)
+        fn = repo.method(cls, name)
+        mod = c.module
+    else:
+        c = None
+        mod = repo.module(module)
+        fn = repo.function(module, name)
+    keep = set(keep) | {name}
+    nz = Normalizer(make_resolver(repo, mod, private_only=not public, also=set(also)), cls=c, keep=keep, depth=depth,
+                    lower_comps=lower_comps)
+    try:
+        fn2 = nz.run(fn)
+    except RecursionError:
+        raise AnalysisError(f"normalisation of {name} did not terminate")
+    cx = FnCtx(mod, c, fn2)
+    cx.orig_fn = fn
+    cx.inlined = list(nz.inlined)
+    cx.opaque = list(nz.opaque)
+    return SCtx(cx)
